@@ -147,3 +147,5 @@ func scaled(v, k float64) int {
 func bitsHex(f float64) string { return fmt.Sprintf("%016x", math.Float64bits(f)) }
 
 func cosSin(th float64) (float64, float64) { return math.Cos(th), math.Sin(th) }
+
+func bytesReaderOf(b []byte) *bytes.Reader { return bytes.NewReader(b) }
